@@ -59,6 +59,11 @@ fn roundtrip<const D: usize>(id: &str, w: &mut World<D>, gp_int: bool, rng: &mut
                     let f1 = crate::common::fingerprint_opt(w.dt.tds(), false);
                     let f2 = crate::common::fingerprint_opt(dt2.tds(), false);
                     if r1 != r2 { same_suffix = format!("0 insert of a general-position point: original {r1:?}, deserialised copy {r2:?}"); break; }
+                    else if f1 != f2 && !(w.dt.is_valid().is_ok() && dt2.is_valid().is_ok()) {
+                        // one of the two insertions left a result that the library's own Level-4
+                        // check does not certify (observation O2): uniqueness carries no claim then
+                        break;
+                    }
                     else if f1 != f2 {
                         if std::env::var_os("VH_DEBUG").is_some() {
                             let v1 = delaunay::core::util::find_delaunay_violations(w.dt.tds(), None).map(|v| v.len());
